@@ -91,6 +91,28 @@ func famRedef(r *rng) []string {
 		res = append(res, cf, "println("+call+")", "println("+call+")",
 			pickS(r, "yq = 1", "yq = func(n){ n * 2 }", "yq = [7, 8]"), "println("+call+")", "del(yq)", "println("+call+")")
 	}
+	if r.intn(3) == 0 { // a function with an all-caps parameter: binding it consults the outer constants of the moment (577ed27)
+		pn := pickS(r, "N", "KQ", "B_1")
+		a := 1 + r.intn(5)
+		fn := pickS(r,
+			fmt.Sprintf("cp = func(%s){ %s + 1 }", pn, pn),
+			fmt.Sprintf("func cp(%s){ %s * 2 }", pn, pn),
+			fmt.Sprintf("cp = func(x, %s){ x + %s }", pn, pn),
+			fmt.Sprintf("cp = func(%s){ w2 = func(){ %s }; w2() }", pn, pn))
+		call := fmt.Sprintf("cp(%d)", a)
+		if strings.Contains(fn, "(x,") {
+			call = fmt.Sprintf("cp(1, %d)", a)
+		}
+		obs := pickS(r, // (the wording of an error is no observation)
+			"println(catch("+call+").err)",
+			"if catch("+call+").err { println(\"refused\") } else { println(catch("+call+").value) }",
+			"wp = func(){ catch("+call+").err }; println(wp()); println(wp())")
+		other := a + 1 + r.intn(3)
+		res = append(res, fn, obs, obs,
+			fmt.Sprintf("%s = %d", pn, []int{a, other}[r.intn(2)]), obs, obs,
+			"del("+pn+")", obs,
+			fmt.Sprintf("%s = %d", pn, []int{a, other}[r.intn(2)]), obs, obs)
+	}
 	if r.intn(4) == 0 { // a function drawing into an image (extension state) twice with the same arguments
 		res = append(res, `image.new("a", 8, 8)`,
 			`tri = func(x, c){ image.move_to("a", x, 1.); image.line_to("a", x + 4., 1.); image.line_to("a", x, 5.); image.close_path("a"); image.draw("a", c) }`,
